@@ -116,11 +116,22 @@ def crystal(rng, name, a, species, reps):
 
 
 def pick_reps(rng, nbasis, max_atoms):
-    for _ in range(50):
-        reps = [rng.randint(1, 4) for _ in range(3)]
-        if nbasis * reps[0] * reps[1] * reps[2] <= max_atoms:
-            return reps
-    return [1, 1, 1]
+    """supercell repetitions: half of the time small, half of the time close to a target size drawn
+    uniformly from [max_atoms/3, max_atoms] (so that the upper end of the size range is populated)"""
+    if rng.random() < 0.5:
+        for _ in range(50):
+            reps = [rng.randint(1, 4) for _ in range(3)]
+            if nbasis * reps[0] * reps[1] * reps[2] <= max_atoms:
+                return reps
+        return [1, 1, 1]
+    target = rng.randint(max(1, max_atoms // 3), max_atoms)
+    best, bn = [1, 1, 1], nbasis
+    for _ in range(60):
+        reps = [rng.randint(1, 6) for _ in range(3)]
+        k = nbasis * reps[0] * reps[1] * reps[2]
+        if bn < k <= target:
+            best, bn = reps, k
+    return best
 
 
 def rattle(rng, pos, sigma):
